@@ -115,6 +115,7 @@ func main() {
 			for j := 0; j < nops; j++ {
 				r.apply(g.next())
 			}
+			r.apply(&Op{Kind: "query"}) // every history ends with a query step (C17)
 			r.finish()
 			record(r)
 		}
